@@ -6,6 +6,7 @@ from cvh import gen, ir as IR, oracle, treeprop as TP
 
 ID = "C03"
 LEVEL = "exploration"
+FUZZ_SECONDS = 240  # thorough tier: 8 parallel Atheris processes driving this module's strategy
 BUDGET = {"quick": 24000, "thorough": 500000}
 WALL = {"quick": 200, "thorough": 2400}
 MIN_CASES = {"quick": 2000, "thorough": 20000}
